@@ -23,52 +23,50 @@ theorem parallel_eq_reach (cfg : Cfg) (forest : List Node) (fuel : Nat) (roots :
     parallel cfg forest fuel roots = reach cfg forest fuel roots :=
   parallel_eq cfg forest fuel roots
 
-/-- The serial walker reports exactly the reachable entries — provided no reachable directory is both
-on another device than its root (under `same_file_system`) and rejected by an entry test
-(`hazardFree`, see `C06_full_fails`). -/
-theorem serial_eq_reach (cfg : Cfg) (forest : List Node) (fuel : Nat) (roots : List Node)
-    (hz : hazardFree cfg forest fuel roots = true) :
+/-- The serial walker reports exactly the reachable entries, for every configuration, file system,
+root list and fuel.  (Before the repair of finding F25 this needed the guard `hazardFree`: no reachable
+directory both on another device than its root under `same_file_system` and rejected by an entry test.) -/
+theorem serial_eq_reach (cfg : Cfg) (forest : List Node) (fuel : Nat) (roots : List Node) :
     serial cfg forest fuel roots = reach cfg forest fuel roots :=
-  serial_eq cfg forest fuel roots hz
+  serial_eq cfg forest fuel roots
 
 /-- The enter/exit bookkeeping of the serial walker is balanced: after the contents of a directory
 the ignore-matcher stack is what it was before. -/
 theorem serial_ig_balanced (cfg : Cfg) (forest : List Node) (f : Nat) (sp : List Nat) (ig : List Anc)
     (depth : Nat) (p : Path) (rd : Option Nat) (kids : List Node)
-    (hsp : cfg.followLinks = true → sp = ig.map (·.1)) (hrd : cfg.sameFs = false → rd = none)
-    (hz : hazardContents cfg forest f ig depth p rd kids = false) :
+    (hsp : cfg.followLinks = true → sp = ig.map (·.1)) (hrd : cfg.sameFs = false → rd = none) :
     (serContents cfg forest f sp ig depth p rd kids).2 = ig := by
-  rw [serContents_ok cfg forest f sp ig depth p rd kids hsp hrd hz]
+  rw [serContents_ok cfg forest f sp ig depth p rd kids hsp hrd]
 
 /-- The full statement of the property for the models. -/
 def C06_full : Prop :=
   ∀ (cfg : Cfg) (forest : List Node) (fuel : Nat) (roots : List Node),
     (serial cfg forest fuel roots).Perm (parallel cfg forest fuel roots)
 
-/-- It is false of the current tree (finding F25): root `1` on device 1 holds the directory `2` on
-device 2, rejected by the filter, followed by the file `3`.  The serial walker calls
-`skip_current_dir` for `2`, which walkdir never pushed, pops the root's listing and never reports
-`1/3`; the parallel walker does. -/
-theorem C06_full_fails : ¬ C06_full := by
-  intro h
-  have hp := h f25Cfg f25Forest 3 f25Forest
-  have h1 : serial f25Cfg f25Forest 3 f25Forest = [.entry [1]] := by decide
-  have h2 : parallel f25Cfg f25Forest 3 f25Forest = [.entry [1], .entry [1, 3]] := by decide
-  rw [h1, h2] at hp
-  have := hp.length_eq
-  simp at this
+/-- It holds (since the repair of finding F25). -/
+theorem C06 : C06_full := by
+  intro cfg forest fuel roots
+  rw [serial_eq, parallel_eq]
 
-/-- Under the guard: both walkers report the same entries (as lists, hence as sets), namely the
+/-- The former witness of finding F25 as a regression check: root `1` on device 1 holds the directory
+`2` on device 2, rejected by the filter, followed by the file `3`.  The serial walker used to call
+`skip_current_dir` for `2`, which walkdir never pushed, popped the root's listing and never reported
+`1/3`; now both walkers report it. -/
+theorem f25_witness_repaired :
+    serial f25Cfg f25Forest 3 f25Forest = [.entry [1], .entry [1, 3]] ∧
+    parallel f25Cfg f25Forest 3 f25Forest = [.entry [1], .entry [1, 3]] := by
+  decide
+
+/-- Both walkers report the same entries (as lists, hence as sets), namely the
 reachable ones, and — names being distinct within each directory and among the roots — each exactly
 once. -/
 theorem C06_partial (cfg : Cfg) (forest : List Node) (fuel : Nat) (roots : List Node)
-    (hz : hazardFree cfg forest fuel roots = true)
     (hwf : WfL forest) (hwr : WfL roots) (hn : (roots.map Node.name).Nodup) :
     serial cfg forest fuel roots = reach cfg forest fuel roots ∧
     parallel cfg forest fuel roots = reach cfg forest fuel roots ∧
     (serial cfg forest fuel roots).Perm (parallel cfg forest fuel roots) ∧
     (serial cfg forest fuel roots).Nodup ∧ (parallel cfg forest fuel roots).Nodup := by
-  have h1 := serial_eq cfg forest fuel roots hz
+  have h1 := serial_eq cfg forest fuel roots
   have h2 := parallel_eq cfg forest fuel roots
   have h3 := reach_nodup cfg forest hwf fuel roots hn hwr
   refine ⟨h1, h2, ?_, ?_, ?_⟩
@@ -85,8 +83,7 @@ theorem parallel_once (cfg : Cfg) (forest : List Node) (fuel : Nat) (roots : Lis
 /-- Symlink loops: (1) a followed link that points to a directory currently being walked is
 reported as a loop error by both walkers and is not entered; (2) the traversal ends: the nesting of
 followed links never exceeds the number of directories, so the recursion fuel `dirCount + 1` is never
-exhausted — any larger fuel gives the same result (for the spec, the parallel walker, the guard and,
-under the guard, the serial walker). -/
+exhausted — any larger fuel gives the same result (for the spec, the parallel walker and the serial walker). -/
 theorem loop_reported_and_terminates (cfg : Cfg) (forest : List Node) :
     (∀ (jp : Contents) (js : SerContents) (rd : Option Nat) (sp : List Nat) (anc : List Anc)
        (depth : Nat) (pp : Path) (name len : Nat) (tgt : Target) (d : DirView) (via : Bool),
@@ -98,9 +95,7 @@ theorem loop_reported_and_terminates (cfg : Cfg) (forest : List Node) :
     (∀ (f : Nat) (roots : List Node), dirCount forest + 1 ≤ f →
        reach cfg forest f roots = reach cfg forest (dirCount forest + 1) roots ∧
        parallel cfg forest f roots = parallel cfg forest (dirCount forest + 1) roots ∧
-       hazardFree cfg forest f roots = hazardFree cfg forest (dirCount forest + 1) roots ∧
-       (hazardFree cfg forest (dirCount forest + 1) roots = true →
-         serial cfg forest f roots = serial cfg forest (dirCount forest + 1) roots)) := by
+       serial cfg forest f roots = serial cfg forest (dirCount forest + 1) roots) := by
   refine ⟨?_, ?_⟩
   · intro jp js rd sp anc depth pp name len tgt d via hf hr hl hsp
     have hfe : followEntry cfg forest (anc.map (·.1)) (pp ++ [name]) (.link name len tgt) =
@@ -118,29 +113,24 @@ theorem loop_reported_and_terminates (cfg : Cfg) (forest : List Node) :
         (by rw [hsp]; exact hfe)]
   · intro f roots hf
     have hr := reach_stable cfg forest f roots hf
-    have hh := hazardFree_stable cfg forest f roots hf
-    refine ⟨hr, ?_, hh, ?_⟩
+    refine ⟨hr, ?_, ?_⟩
     · rw [parallel_eq, parallel_eq, hr]
-    · intro hz
-      rw [serial_eq cfg forest f roots (by rw [hh]; exact hz),
-        serial_eq cfg forest _ roots hz, hr]
+    · rw [serial_eq, serial_eq, hr]
 
 /-- The serial walker as the code is built — walkdir's `IntoIter` (stack of directory listings,
 `stack_path`, `handle_entry`, `push`/`pop`, the `max_depth` pop loop, `skip_current_dir`),
 `WalkEventIter` (one-item look-ahead, `depth` counter, Dir / File / Exit events) and the loop of
 `Walk::next` (the `ig` stack, `skip_entry`), modelled as state machines in `Model/WalkEvents.lean` —
 reports, for every sufficiently large step budget, exactly the list of the recursive model `serial`
-(about which the other theorems speak); hence, under the guard, exactly the reachable entries. -/
+(about which the other theorems speak); hence exactly the reachable entries. -/
 theorem serial_events_eq (cfg : Cfg) (forest : List Node) (roots : List Node) :
     (∃ N, ∀ fuel, N ≤ fuel →
       serialEvents cfg forest fuel roots = some (serial cfg forest (dirCount forest + 1) roots)) ∧
-    (hazardFree cfg forest (dirCount forest + 1) roots = true →
-      ∃ N, ∀ fuel, N ≤ fuel →
+    (∃ N, ∀ fuel, N ≤ fuel →
         serialEvents cfg forest fuel roots = some (reach cfg forest (dirCount forest + 1) roots)) := by
   have h := serialEvents_eq cfg forest (dirCount forest + 1) (Nat.le_refl _) roots
   refine ⟨h, ?_⟩
-  intro hz
-  rw [← serial_eq cfg forest _ roots hz]
+  rw [← serial_eq cfg forest _ roots]
   exact h
 
 /-- Outside the property (error visits are not entries), for completeness: the rule for the EACCES
@@ -193,7 +183,7 @@ theorem parallel_any_schedule (cfg : Cfg) (forest : List Node) (fuel : Nat) (roo
     rw [he]
     exact reach_entries_nodup cfg forest hwf fuel roots hnr hwr
 
-/-! Non-vacuity of the guard and the hypotheses of `C06_partial`: a root on device 1 with an ignore
+/-! Non-vacuity of the hypotheses of `C06_partial` (and of the former guard): a root on device 1 with an ignore
 file, a sub-directory on device 2 that is *not* rejected (reported but not entered), a link cycle,
 a rejected file and a size limit — `same_file_system`, `follow_links`, `max_filesize`, a filter and an
 ignore rule all active; six outputs. -/
